@@ -11,6 +11,7 @@ package c14
 import (
 	"bytes"
 	"crypto"
+	"crypto/sha256"
 	"crypto/x509"
 	"encoding/base64"
 	"encoding/json"
@@ -80,9 +81,38 @@ func ChildFSMain(args []string) {
 	// the end-to-end part of the oracle needs the private key: do it here, without touching storage
 	r.rkey = fakeRootKey{pub: r.root.PublicKey} // the parent checks the stored root key itself
 	problem := chainProblem(r)
-	fmt.Printf("ok %s %s %s %s\n", base64.StdEncoding.EncodeToString(r.root.Raw), base64.StdEncoding.EncodeToString(r.inter.Raw),
-		ikPub, "p:"+base64.StdEncoding.EncodeToString([]byte(problem)))
+	// what follows is not part of the start-up the model describes: tell the tracer to stop looking
+	_ = syscall.Faccessat(-100 /* AT_FDCWD */, filepath.Join(args[0], "mark"), 0, 0)
+	// STORAGE CLEANING (what caddytls's periodic cleanStorageUnits runs on this very storage) must
+	// leave the CA's files alone, whatever temp files an interrupted Store left next to them
+	before := snapshotDir(filepath.Join(args[0], "pki"))
+	cleanErr := certmagic.CleanStorage(ctx, ctx.Storage(), certmagic.CleanStorageOptions{
+		OCSPStaples: true, ExpiredCerts: true, ExpiredCertGracePeriod: 24 * time.Hour,
+	})
+	clean := "same"
+	if after := snapshotDir(filepath.Join(args[0], "pki")); after != before {
+		clean = "changed"
+	}
+	if cleanErr != nil {
+		clean += ":" + strings.ReplaceAll(cleanErr.Error(), " ", "_")
+	}
+	fmt.Printf("ok %s %s %s %s clean:%s\n", base64.StdEncoding.EncodeToString(r.root.Raw), base64.StdEncoding.EncodeToString(r.inter.Raw),
+		ikPub, "p:"+base64.StdEncoding.EncodeToString([]byte(problem)), clean)
 	os.Exit(0)
+}
+
+// snapshotDir: names and contents of everything under dir.
+func snapshotDir(dir string) string {
+	var sb strings.Builder
+	filepath.Walk(dir, func(p string, info os.FileInfo, err error) error {
+		if err != nil || info.IsDir() {
+			return nil
+		}
+		b, _ := os.ReadFile(p)
+		fmt.Fprintf(&sb, "%s %x\n", p, sha256.Sum256(b))
+		return nil
+	})
+	return sb.String()
 }
 
 // fakeRootKey satisfies chainProblem's "root key belongs to the root" clause, which the parent
@@ -109,7 +139,7 @@ type fsOp struct {
 	natural bool // failed by itself with ENOENT (a key file that does not exist)
 }
 
-const fsSyscalls = "openat,fchmod,fchmodat,write,pwrite64,fsync,fdatasync,close,rename,renameat,renameat2,unlink,unlinkat,truncate,ftruncate,link,linkat"
+const fsSyscalls = "faccessat,faccessat2,openat,fchmod,fchmodat,write,pwrite64,fsync,fdatasync,close,rename,renameat,renameat2,unlink,unlinkat,truncate,ftruncate,link,linkat"
 
 func fsKeyOfPath(storeRoot, p string) (short string, inDir bool) {
 	dir := filepath.Join(storeRoot, "pki", "authorities", caID)
@@ -271,6 +301,12 @@ func parseFSTrace(text, storeRoot string) []fsOp {
 		if cm == nil {
 			continue
 		}
+		if strings.HasPrefix(cm[1], "faccessat") {
+			if strings.Contains(body, filepath.Join(storeRoot, "mark")) {
+				break // the start-up is over; what follows is the harness's own epilogue
+			}
+			continue
+		}
 		counts[cm[1]]++
 		if strings.HasSuffix(body, "<unfinished ...>") {
 			pending, pendingNo = strings.TrimSuffix(body, "<unfinished ...>"), counts[cm[1]]
@@ -422,9 +458,7 @@ func runFSOnce(line, hist string, evs []fsEvent) (o core.Outcome, misplaced bool
 	defer os.RemoveAll(work)
 	storeRoot := filepath.Join(work, "store")
 	caDir := filepath.Join(storeRoot, "pki", "authorities", caID)
-	if err := os.MkdirAll(caDir, 0o700); err != nil {
-		return core.Outcome{Impl: "harness-error"}, false
-	}
+	// the directories are NOT created here: the first Store's MkdirAll makes them, as in a fresh install
 	nm := &namer{pubs: map[string]crypto.PublicKey{}, signers: map[[32]byte]string{},
 		blobs: map[[32]byte]decoded{}, chains: map[[32]byte]string{}}
 	tags := map[string]bool{}
@@ -505,7 +539,7 @@ func runFSOnce(line, hist string, evs []fsEvent) (o core.Outcome, misplaced bool
 			r.class = errClassCA(fmt.Errorf("%s", res.out))
 			toks = append(toks, tok{s: "err:" + r.class})
 			tags["err:"+r.class] = true
-		case len(fields) == 5 && fields[0] == "ok":
+		case len(fields) == 6 && fields[0] == "ok":
 			r.kind = "ok"
 			rootDER, _ := base64.StdEncoding.DecodeString(fields[1])
 			interDER, _ := base64.StdEncoding.DecodeString(fields[2])
@@ -524,6 +558,11 @@ func runFSOnce(line, hist string, evs []fsEvent) (o core.Outcome, misplaced bool
 			toks = append(toks, tok{s: ",i="})
 			toks = append(toks, nm.certToks(r.inter)...)
 			toks = append(toks, tok{s: ",k=k"}, tok{id: nm.learn(ikPub)}, tok{s: ")"})
+			if c := strings.TrimPrefix(fields[5], "clean:"); c != "same" {
+				fail("fs-storage-cleaning-touched-ca-files", fmt.Sprintf("after start-up %d of %q certmagic.CleanStorage on the same storage: %s", i+1, hist, c))
+			} else {
+				tags["storage-cleaned"] = true
+			}
 			if ev.fault == 0 || ev.k > len(res.ops) {
 				if len(problem) > 0 {
 					fail("fs-inconsistent-chain-after-startup", fmt.Sprintf("start-up %d of %q on FileStorage succeeded but: %s", i+1, hist, problem))
